@@ -100,6 +100,15 @@ def run(ck: Check) -> int:
 
     names = [x for x in gen.names_upto('ab./', 3) if x] + ['a.b', 'ab/a', 'a/b/', '.a', 'a\n', 'A', 'aA']
 
+    def s_caps(sr):
+        gp = [p for p in pats if '(' in p][: (1200 if quick else 20000)]
+        cases = [(p, iflags(False) | W._TRANSLATE | W.EXTMATCH, R.random() < 0.15 and all(ord(c) < 256 for c in p)) for p in gp]
+        streams.k2cap(sr, drv, cases, names + ['ab', 'abab', 'aab', 'ba.', 'a/ab', 'b/a/b'])
+        sr.note = ('K2-captures: the group SPANS re.fullmatch reports for the translate-mode regex vs Re.fullmatchCap of the model AST on every name '
+                   '(the matcher translate_capture_text is about: each reported span is text the body of that group matches in place)')
+    if drv:
+        ck.stream('K2-capture-spans', s_caps)
+
     def s_search(sr):
         deep = ck.deep()
         m = len(pats) if (deep or not quick) else 2500
